@@ -169,10 +169,23 @@ impl<B: AsRef<[usize]> + BitLength, C: AsRef<[BlockCounters]>> Select9<Rank9<B, 
         let mut inventory = Vec::with_capacity(inventory_size + 1);
         let mut subinventory = vec![0; subinventory_size].into_boxed_slice();
 
+        // The backend might contain arbitrary bits beyond the length of the
+        // vector (in the last word, and in further words): they are not ones
+        // of the vector and must be ignored
+        let residual = num_bits % 64;
+        let word_at = |i: usize| {
+            let word = rank9.bits.as_ref()[i];
+            if i + 1 == num_words && residual != 0 {
+                word & ((1 << residual) - 1)
+            } else {
+                word
+            }
+        };
+
         // construct the inventory
         let mut curr_num_ones = 0;
         let mut next_quantum = 0;
-        for (i, word) in rank9.bits.as_ref().iter().copied().enumerate() {
+        for (i, word) in (0..num_words).map(|i| (i, word_at(i))) {
             let ones_in_word = word.count_ones() as usize;
 
             while curr_num_ones + ones_in_word > next_quantum {
@@ -252,7 +265,7 @@ impl<B: AsRef<[usize]> + BitLength, C: AsRef<[BlockCounters]>> Select9<Rank9<B, 
                 // clean up the lower bits
                 let mut word_idx = inventory[inventory_idx] / usize::BITS as usize;
                 let bit_idx = inventory[inventory_idx] % usize::BITS as usize;
-                let mut word = (rank9.bits.as_ref()[word_idx] >> bit_idx) << bit_idx;
+                let mut word = (word_at(word_idx) >> bit_idx) << bit_idx;
 
                 let start_bit_idx = inventory[inventory_idx];
                 let end_bit_idx = inventory[inventory_idx + 1];
@@ -304,7 +317,7 @@ impl<B: AsRef<[usize]> + BitLength, C: AsRef<[BlockCounters]>> Select9<Rank9<B, 
                     }
 
                     // read the next word
-                    word = rank9.bits.as_ref()[word_idx];
+                    word = word_at(word_idx);
                 }
             }
         });
